@@ -386,12 +386,13 @@ func (w *W) walkLoop(f *frame, fi *fnInfo, l *loopInfo) {
 			// loop head, e.g. in `for x := range ch`, is not a truncated state)
 			before := f.t.truncated
 			f.iter = mkKey(saved, h, k, -3)
-			f.t.cutAfterOp = true
-			w.execBlock(f, fi, l.header)
+			f.t.lazy++
+			prevName := f.t.lazyName
+			f.t.lazyName = name
+			w.walkItems(f, fi, fi.items[l])
+			f.t.lazyName = prevName
+			f.t.lazy--
 			tg := False
-			if f.t.cutAfterOp {
-				f.t.cutAfterOp = false
-			}
 			for b := range l.blocks {
 				for _, e := range f.in[b] {
 					tg = Or(tg, e.g)
